@@ -11,7 +11,7 @@ import re
 import vlib
 from vlib import Check, Scratch
 from ddpmodel import *
-from ddpmodel.gen import StmtGen
+from ddpmodel.gen import StmtGen, wrap_in_function
 from ddpmodel import runner
 from checks import progcheck
 
@@ -149,7 +149,10 @@ def run(tier):
             i, mons = job
             rnd = random.Random("%d/%s/%d" % (chk.seed, PID, i))
             g = OwnGen(rnd)
-            prog = g.build(n_items=rnd.randint(10, 22), d=2, nest=rnd.randint(1, 3), n_funcs=rnd.randint(1, 3))
+            local = rnd.random() < 0.35   # all variables local to one function
+            prog = g.build(n_items=rnd.randint(10, 22), d=2, nest=rnd.randint(1, 3), n_funcs=0 if local else rnd.randint(1, 3))
+            if local:
+                wrap_in_function(prog)
             try:
                 exp = runner.expected(prog)
             except ModelDomain:
